@@ -129,7 +129,11 @@ func c05queryOpts(q c05Query) []func(hrpc.Call) error {
 		o = append(o, hrpc.Families(fam))
 	}
 	if q.Opt.TrFrom >= 0 {
-		o = append(o, hrpc.TimeRangeUint64(uint64(q.Opt.TrFrom), uint64(q.Opt.TrTo)))
+		to := uint64(q.Opt.TrTo)
+		if q.Opt.TrTo == -2 { // the specification's TsMax
+			to = hrpc.MaxTimestamp
+		}
+		o = append(o, hrpc.TimeRangeUint64(uint64(q.Opt.TrFrom), to))
 	}
 	if q.Opt.MaxVersions != 1 {
 		o = append(o, hrpc.MaxVersions(uint32(q.Opt.MaxVersions)))
